@@ -70,7 +70,8 @@ impl Ep {
             // first concretisation: a listener of its own; second: the process-wide single-port listener
             "ice_tcp" => Ok(Ep::IceTcp(ice::Tcp::build(variant % 2 == 1).await?)),
             // first concretisation: clear RTP; second: SRTP installed
-            "rtp_transport" => Ok(Ep::Rtp(rtp::Ep::build(variant % 2 == 1).await?)),
+            // (the noisy repetition uses AEAD_AES_128_GCM)
+            "rtp_transport" => Ok(Ep::Rtp(rtp::Ep::build(variant % 2 == 1, variant >= 2).await?)),
             "udptl" => Ok(Ep::Udptl(udptl::Ep::build().await?)),
             // second concretisation: RTP latching with a probation window enabled
             "pc_rtp" => Ok(Ep::PcRtp(pcrtp::Ep::build(variant % 2 == 1).await?)),
@@ -189,7 +190,7 @@ async fn one_run(ctx: &Ctx, entry: &str, pre: &[Value], ci: usize, tpl: &str, cl
     let bytes = ep.genuine(tpl).await.ok_or(format!("no genuine {tpl} for {entry}"))?;
     let g = Genuine::new(leaves, bytes.clone()).map_err(|e| format!("genuine {tpl} does not conform to its grammar table: {e} [{}]", hex(&bytes)))?;
     let input = match class {
-        None => bytes,
+        None => ep.prepare_input(bytes, ""),
         Some((idx, mutn)) => {
             let mut rng = ctx.rng_for(ci, variant);
             // concretisations 0/1 select the endpoint's role / mode as built; 2/3 repeat them with noise in the free bytes
@@ -250,8 +251,19 @@ pub async fn run_case(ctx: &Ctx, st: &mut State, ci: usize, c: &Value) -> Value 
     if !st.baseline_done.contains(&key) {
         st.baseline_done.insert(key);
         let b = match one_run(ctx, entry, &pre, ci, tpl, None, 0).await {
-            Ok(Some(v)) => json!({"type": "baseline", "tpl": tpl, "entry": entry, "phase": phase, "conforms": true,
-                "res": v["res"], "detail": v["detail"], "post": v["post"], "processed": v["processed"]}),
+            Ok(Some(v)) => {
+                // non-vacuity of the binding: where the genuine message has an observable intended effect, it must show
+                let note = v["note"].as_str().unwrap_or("");
+                let effect = match entry {
+                    "rtp_transport" if phase == "est" => Some(note != "delivered=0"),
+                    "pc_sdp" | "pc_candidate" if phase != "closing" && c["pre"].as_array().map(|p| p.iter().all(|o| o["op"] != "feed")).unwrap_or(true) => Some(note == "accepted"),
+                    "dtls_server" | "dtls_client" | "sctp" if phase != "closing" && c["pre"].as_array().map(|p| p.iter().all(|o| o["op"] != "feed")).unwrap_or(true) => v["processed"].as_bool(),
+                    "ice_udp" | "turn_udp" | "pc_rtp" if phase != "closing" => v["processed"].as_bool(),
+                    _ => None,
+                };
+                json!({"type": "baseline", "tpl": tpl, "entry": entry, "phase": phase, "conforms": true, "effect": effect, "note": note,
+                    "res": v["res"], "detail": v["detail"], "post": v["post"], "processed": v["processed"]})
+            }
             Ok(None) => json!({"type": "baseline", "tpl": tpl, "entry": entry, "phase": phase, "conforms": false, "detail": "no input"}),
             Err(e) => json!({"type": "baseline", "tpl": tpl, "entry": entry, "phase": phase, "conforms": false, "detail": e}),
         };
@@ -332,6 +344,7 @@ pub async fn probe(entry: &str, phase: &str, tpl: &str, variant: u64) {
     let g = ep.genuine(tpl).await;
     println!("genuine: {:?}", g.as_ref().map(|g| crate::hex(g)));
     if let Some(g) = g {
+        let g = ep.prepare_input(g, "");
         let t0 = std::time::Instant::now();
         let f = ep.feed(&g).await;
         let o = ep.observe();
